@@ -132,12 +132,13 @@ func (x *Exec) evalCall(call *ast.CallExpr, st *State) []Term {
 		x.recvStatic = x.typeOf(se.X)
 	}
 	defer func() { x.recvStatic = savedRS }()
+	if pkgPathOf(fn) == "reflect" {
+		// (also the methods of the interface reflect.Type: descriptors are resolved statically)
+		return x.callReflect(call, fn, recv, st)
+	}
 	// interface method: dynamic dispatch
 	if recv != nil && isInterface(recvT) {
 		return x.callInterfaceMethod(call, fn, *recv, recvT, st)
-	}
-	if pkgPathOf(fn) == "reflect" {
-		return x.callReflect(call, fn, recv, st)
 	}
 	args := x.evalArgs(call, sig, st)
 	after = append(after, x.pendingWriteBacks...)
